@@ -44,7 +44,7 @@ def tasks(seed, tier, n):
     ts = []
     for i in range(n):
         ts.append({'case': i, 'mode': 'main', 'hclass': i % 4})
-        if i % 4 == 1:
+        if i % 2 == 1:
             ts.append({'case': i, 'mode': 'shadow', 'hclass': (i + 1 + (i // 4) % 3) % 4})
     # stub calibration against the real pathos pool (informational, DESIGN 3.2): 1 input on every quick run,
     # 4 on a thorough run
@@ -284,7 +284,7 @@ def run_case(seed, task, tier):
                 if clause == 'combined':
                     q, d1 = p, d
                 out['violations'].append(make_violation(seed, task, case, q, clause, d1))
-        if task['case'] % 4 == 1:
+        if task['case'] % 2 == 1:
             out['ref_seqs'] = seqs
             out['case_for_shadow'] = case
     out['sample'] = {'case': idx, 'stats': case['stats'], 'config': case['config'],
